@@ -128,6 +128,18 @@ def _generate(repo, g):
                    "data['path'] = str(data['path'])", 'json.dump((_SERIALIZER_VERSION, data), f)'):
         if not has(stext, needle):
             raise TieBroken('project.py: Project.save no longer contains `%s`' % needle)
+    # how the settings file is opened: `with open(self._get_json_path(self._path), <mode>) as f:` - the mode
+    # decides what a save into a directory that already holds a project.json leaves behind (Model/ProjFile)
+    opens = [n for n in ast.walk(save) if isinstance(n, ast.Call) and u(n.func) in ('open', 'io.open')]
+    lowlevel = [u(n) for n in ast.walk(save) if isinstance(n, ast.Call)
+                and u(n.func) in ('os.open', 'os.fdopen', 'Path.open', 'os.write')]
+    if len(opens) != 1 or lowlevel or len(opens[0].args) != 2 or opens[0].keywords \
+            or u(opens[0].args[0]) != 'self._get_json_path(self._path)' \
+            or not isinstance(opens[0].args[1], ast.Constant) or not isinstance(opens[0].args[1].value, str):
+        raise TieBroken('project.py: Project.save does not open the settings file with open(<json path>, <mode>)',
+                        repr([u(o) for o in opens] + lowlevel))
+    g.define('saveOpenMode', 'String', lean_str(opens[0].args[1].value),
+             'jedi/api/project.py:Project.save open(self._get_json_path(self._path), MODE)')
     stmts = [u(s) for s in save.body if not (isinstance(s, ast.Expr) and isinstance(s.value, ast.Constant))]
     if len(stmts) != 7:
         raise TieBroken('project.py: Project.save has %d statements, model knows 7' % len(stmts), repr(stmts))
